@@ -15,3 +15,4 @@ import BevySyncModel.Props.C09
 import BevySyncModel.Props.C10
 import BevySyncModel.Props.C06
 import BevySyncModel.Props.C03
+import BevySyncModel.Props.C07
